@@ -37,15 +37,40 @@ func VerifC07Unique() {
 	sched := rt.Pick("schedule", 5)
 	switch sched {
 	case 0: // sequential
-		start(0); output(0); commit(0); start(1); output(1); commit(1)
+		start(0)
+		output(0)
+		commit(0)
+		start(1)
+		output(1)
+		commit(1)
 	case 1: // overlapped, commits in start order
-		start(0); start(1); output(0); output(1); commit(0); commit(1)
+		start(0)
+		start(1)
+		output(0)
+		output(1)
+		commit(0)
+		commit(1)
 	case 2:
-		start(0); start(1); output(0); commit(0); output(1); commit(1)
+		start(0)
+		start(1)
+		output(0)
+		commit(0)
+		output(1)
+		commit(1)
 	case 3:
-		start(0); start(1); output(1); output(0); commit(1); commit(0)
+		start(0)
+		start(1)
+		output(1)
+		output(0)
+		commit(1)
+		commit(0)
 	case 4:
-		start(0); output(0); start(1); output(1); commit(1); commit(0)
+		start(0)
+		output(0)
+		start(1)
+		output(1)
+		commit(1)
+		commit(0)
 	}
 	rt.Reach("ran")
 	clashKey := a[0] == a[1]
@@ -104,13 +129,33 @@ func VerifC07EmptyKey() {
 	}
 	switch rt.Pick("schedule", 4) {
 	case 0:
-		start(0); output(0); commit(0); start(1); output(1); commit(1)
+		start(0)
+		output(0)
+		commit(0)
+		start(1)
+		output(1)
+		commit(1)
 	case 1:
-		start(0); start(1); output(0); output(1); commit(0); commit(1)
+		start(0)
+		start(1)
+		output(0)
+		output(1)
+		commit(0)
+		commit(1)
 	case 2:
-		start(0); start(1); output(0); commit(0); output(1); commit(1)
+		start(0)
+		start(1)
+		output(0)
+		commit(0)
+		output(1)
+		commit(1)
 	case 3:
-		start(0); start(1); output(1); output(0); commit(1); commit(0)
+		start(0)
+		start(1)
+		output(1)
+		output(0)
+		commit(1)
+		commit(0)
 	}
 	rt.Reach("ran")
 	rt.Assert("emptykey/at-most-one-row", !(committed[0] && committed[1]))
